@@ -78,7 +78,7 @@ Definition to_entries (r : pres) : result terr (list value) :=
   | PNv (Str s) => Ok [VStr s]
   | PNv (Lst l) => Ok (map nv_to_value l)
   | PObj (VList l) => Ok l
-  | PObj (VRange n) => Ok (zrange n)
+  | PObj (VRange n) => range_items n
   | PObj (VDict d) => Ok (map (fun kv => VStr (fst kv)) d)
   | PObj VUndef => undef_forced pnat []
   | PObj v => Ok [v]
